@@ -408,13 +408,15 @@ theorem run_eq_of_exec {P : Script} {prog : Program} (hc : compile P = .ok prog)
 theorem Stmt.litsPos_of_frag {s : Stmt} (h : s.frag = true) : s.litsPos = true := by
   cases s with
   | send amt src d =>
-    cases amt <;> cases src <;> simp only [Stmt.frag, Bool.and_eq_true, Bool.false_eq_true] at h <;>
-      simp only [Stmt.litsPos, h.2, Bool.and_true]
-    exact h.1.2
+    cases src with
+    | src sc =>
+      simp only [Stmt.frag, Bool.and_eq_true] at h
+      simp only [Stmt.litsPos, h.2]
+    | allot items =>
+      simp only [Stmt.frag, Bool.and_eq_true] at h
+      simp only [Stmt.litsPos, h.2, h.1.2, Bool.and_self]
   | setTxMeta k v => exact litsPos_of_noPortion h
-  | setAccountMeta acc k v =>
-    simp only [Stmt.frag, Bool.and_eq_true] at h
-    exact litsPos_of_noPortion h.1
+  | setAccountMeta acc k v => exact litsPos_of_noPortion h
   | print e => exact litsPos_of_noPortion h
   | saveMon _ _ => rfl
   | saveAll _ _ => rfl
